@@ -756,6 +756,74 @@ def conditional_expressions(tree):
     return count[0]
 
 
+def tuple_assignments(tree):
+    """a = X ; b = Y   (adjacent plain-name assignments, b is not a, Y does not read a, X and Y free of walrus / yield)   ->   a, b = X, Y
+    (X is still evaluated before Y; both are evaluated before either name is bound, which only matters if Y read a)"""
+    count = [0]
+
+    class T(ast.NodeTransformer):
+        def _block(self, stmts):
+            out = []
+            i = 0
+            while i < len(stmts):
+                st = stmts[i]
+                nx = stmts[i + 1] if i + 1 < len(stmts) else None
+                if isinstance(st, ast.Assign) and isinstance(nx, ast.Assign) and len(st.targets) == 1 and len(nx.targets) == 1 and isinstance(st.targets[0], ast.Name) \
+                        and isinstance(nx.targets[0], ast.Name) and st.targets[0].id != nx.targets[0].id \
+                        and not any(isinstance(y, ast.Name) and y.id == st.targets[0].id for y in ast.walk(nx.value)) \
+                        and not any(isinstance(y, (ast.NamedExpr, ast.Yield, ast.YieldFrom, ast.Await, ast.Starred)) for v in (st.value, nx.value) for y in ast.walk(v)) \
+                        and not isinstance(st.value, ast.Tuple) and not isinstance(nx.value, ast.Tuple):
+                    count[0] += 1
+                    out.append(ast.copy_location(ast.Assign(targets=[ast.Tuple(elts=[ast.Name(id=st.targets[0].id, ctx=ast.Store()), ast.Name(id=nx.targets[0].id, ctx=ast.Store())], ctx=ast.Store())],
+                                                            value=ast.Tuple(elts=[st.value, nx.value], ctx=ast.Load()), lineno=st.lineno), st))
+                    i += 2
+                    continue
+                out.append(st)
+                i += 1
+            return out
+
+        def generic_visit(self, node):
+            node = super().generic_visit(node)
+            for fld in ("body", "orelse", "finalbody"):
+                v = getattr(node, fld, None)
+                if isinstance(v, list) and v and isinstance(v[0], ast.stmt) and not isinstance(node, (ast.ClassDef, ast.Module)):
+                    setattr(node, fld, self._block(v))
+            if isinstance(node, ast.Try):
+                for h in node.handlers:
+                    h.body = self._block(h.body)
+            return node
+    for fn in [x for x in ast.walk(tree) if isinstance(x, (ast.FunctionDef, ast.AsyncFunctionDef))]:
+        T().visit(fn)
+    ast.fix_missing_locations(tree)
+    return count[0]
+
+
+def plain_dict_iteration(tree):
+    """for k in D.keys(): ..  ->  for k in D: ..      (also in comprehensions; a mapping iterates its keys)"""
+    count = [0]
+
+    class T(ast.NodeTransformer):
+        def _it(self, it):
+            if isinstance(it, ast.Call) and isinstance(it.func, ast.Attribute) and it.func.attr == "keys" and not it.args and not it.keywords:
+                count[0] += 1
+                return it.func.value
+            return it
+
+        def visit_For(self, n):
+            self.generic_visit(n)
+            n.iter = self._it(n.iter)
+            return n
+
+        def visit_comprehension(self, n):
+            self.generic_visit(n)
+            n.iter = self._it(n.iter)
+            return n
+    for fn in [x for x in ast.walk(tree) if isinstance(x, (ast.FunctionDef, ast.AsyncFunctionDef))]:
+        T().visit(fn)
+    ast.fix_missing_locations(tree)
+    return count[0]
+
+
 def transformed_copy(mode, suffix="_q"):
     """a scratch copy of the analysed tree (VERIF_REPO_ROOT or /repo) with one transformation applied everywhere; (path, number of rewrites)"""
     src_root = os.environ.get("VERIF_REPO_ROOT", "/repo")
@@ -769,7 +837,7 @@ def transformed_copy(mode, suffix="_q"):
     sig = _signatures([ast.parse(open(p_).read()) for p_ in files if os.path.exists(p_)]) if mode == "keyword-arguments" else {}
     if mode.startswith("combined"):
         # several rewrites on top of one another (each still preserves behaviour): the checks must not depend on a spelling surviving the others
-        order = {"combined": ["alias-attributes", "loops-for-comprehensions", "rename-comprehension-variables", "swap-products", "name-arguments", "name-tests", "swap-arms", "else-after-exit", "flip-comparisons", "keyword-arguments", "generators-for-lists", "hoist-returns", "rename-locals"],
+        order = {"combined": ["tuple-assignments", "conditional-expressions", "alias-attributes", "loops-for-comprehensions", "rename-comprehension-variables", "swap-products", "name-arguments", "name-tests", "swap-arms", "else-after-exit", "flip-comparisons", "keyword-arguments", "generators-for-lists", "hoist-returns", "rename-locals"],
                  "combined-2": ["inline-temps", "unelse", "swap-arms", "flip-comparisons", "hoist-returns", "name-tests", "rename-locals"]}[mode]
         shutil.rmtree(scratch, ignore_errors=True)
         prev_root = os.environ.get("VERIF_REPO_ROOT")
@@ -806,7 +874,7 @@ def transformed_copy(mode, suffix="_q"):
                 total += k
             continue
         k = {"hoist-returns": hoist_returns, "name-arguments": name_arguments, "unelse": unelse, "else-after-exit": else_after_exit,
-             "flip-comparisons": flip_comparisons, "inline-temps": inline_temps, "swap-arms": swap_arms, "generators-for-lists": generators_for_lists, "swap-products": swap_products, "conditional-expressions": conditional_expressions, "numpy-function-forms": numpy_function_forms, "rename-comprehension-variables": rename_comprehension_variables, "loops-for-comprehensions": loops_for_comprehensions,
+             "flip-comparisons": flip_comparisons, "inline-temps": inline_temps, "swap-arms": swap_arms, "generators-for-lists": generators_for_lists, "swap-products": swap_products, "tuple-assignments": tuple_assignments, "plain-dict-iteration": plain_dict_iteration, "conditional-expressions": conditional_expressions, "numpy-function-forms": numpy_function_forms, "rename-comprehension-variables": rename_comprehension_variables, "loops-for-comprehensions": loops_for_comprehensions,
              "name-tests": name_tests}.get(mode, lambda t: rename_locals(t, suffix))(tree)
         if k:
             open(path, "w").write(ast.unparse(tree) + "\n")
@@ -823,7 +891,7 @@ def main():
     if "--only" in sys.argv:
         only = sys.argv[sys.argv.index("--only") + 1].split(",")
     mode = "rename-locals"
-    for m_ in ("hoist-returns", "name-arguments", "unelse", "else-after-exit", "flip-comparisons", "keyword-arguments", "inline-temps", "swap-arms", "generators-for-lists", "name-tests", "swap-products", "loops-for-comprehensions", "rename-comprehension-variables", "alias-attributes", "numpy-function-forms", "conditional-expressions", "combined-2", "combined"):
+    for m_ in ("hoist-returns", "name-arguments", "unelse", "else-after-exit", "flip-comparisons", "keyword-arguments", "inline-temps", "swap-arms", "generators-for-lists", "name-tests", "swap-products", "loops-for-comprehensions", "rename-comprehension-variables", "alias-attributes", "numpy-function-forms", "conditional-expressions", "tuple-assignments", "plain-dict-iteration", "combined-2", "combined"):
         if "--" + m_ in sys.argv:
             mode = m_
     out = tempfile.mkdtemp(prefix="batchie-verif-alpha-out-", dir="/var/tmp")
